@@ -489,11 +489,11 @@ def gen_wait(rng, maxm):
 def gen_cases(rng, tier):
     q = tier == 'quick'
     cases = []
-    cases += [gen_loop(rng) for _ in range(1500 if q else 30000)]
-    cases += [gen_lib(rng) for _ in range(500 if q else 8000)]
-    cases += [gen_zip(rng) for _ in range(400 if q else 6000)]
+    cases += [gen_loop(rng) for _ in range(2500 if q else 30000)]
+    cases += [gen_lib(rng) for _ in range(700 if q else 8000)]
+    cases += [gen_zip(rng) for _ in range(500 if q else 6000)]
     cases += [gen_as(rng, True) for _ in range(300 if q else 3000)]
-    cases += [gen_wait(rng, 5 if q else 6) for _ in range(60 if q else 500)]
+    cases += [gen_wait(rng, 5 if q else 6) for _ in range(80 if q else 500)]
     return cases
 
 def shrink(case):
